@@ -89,4 +89,19 @@ def lastMsg : List Entry → Option Nat
 def Entry.time : Entry → Nat
   | .msg t => t | .tick t _ => t | .dead t => t
 
+/-- executable form of the C10 rules, used by the driver to judge a history observed on the
+implementation (`Props/C10.lean::checkLog_complete`: a history satisfying the proven rules passes) -/
+def checkLog (k : Nat) : List Entry → Option String
+  | [] => none
+  | .msg _ :: r => checkLog k r
+  | .tick t p :: r => if p != !msgSinceTick r then some s!"ping-rule@{t}" else checkLog k r
+  | .dead D :: r =>
+    match firstPingSinceMsg r with
+    | none => some s!"dead-without-unanswered-ping@{D}"
+    | some p =>
+      if D != p + 9 * k then some s!"dead-not-4.5K-after-first-ping@{D}" else
+      match lastMsg r with
+      | some t => if t + 11 * k ≤ D ∧ D ≤ t + 13 * k then checkLog k r else some s!"window@{D}"
+      | none => if D = 11 * k then checkLog k r else some s!"window-fresh@{D}"
+
 end Esp.Keepalive
